@@ -39,7 +39,23 @@ Case kinds
        coercing validators + the schema Config's anystr limits; outside the Lean grammar) on
        either side: parent `f: b`, child `f: a`; if construction + `check_types` let the child
        through, every value it accepts must serialise to something the parent accepts.
-  anc  installed schemas: every generated instance (json_dict()) parsed by every ancestor.
+  fin  oracle only: pydantic Field settings (alias, description, bounds, lengths, regex, item counts, const,
+       defaults, `...`) on the child's and / or the parent's side of an override, attached as
+       `Annotated[T, Field(..)]`, as `f: T = Field(..)` or not at all; chains of 2-4 classes; values given under
+       the field name, under each alias of the chain, or left to the default. Known findings F40 / F41 (the check
+       compares hints only) have fixed probes; an Annotated child over a plain parent hint (refused as the code
+       stands) has a signature of its own.
+  plg  oracle only: the plugins of a family installed through synthetic entry points of the real `schemas`
+       group and requested repeatedly in every way the group hands plugins out; a plugin that fails its
+       load-time checks must be refused by every request (F37).
+  anc  installed schemas: every generated instance parsed by every ancestor.
+
+Serialisation forms: wherever an instance of a child class is handed to an ancestor (ovr, seq, enm, pln, fin, anc) it
+travels as `json_dict()` and as `bytes(obj)` (what containers store; the property's observation point is
+`Parent.parse_raw(bytes(child_obj))`), the first instances of every class also as `json()`, `str()` and `yaml()`
+(`_rejected_form`); a form counts only if the class reads its own output back (otherwise it is C12's business).
+Re-annotations come with and without a default value (`f: T = v` over a field that is required further up), and the
+generated documents leave such fields out (tag `relies-on-default-of-field-required-above`).
 """
 import itertools
 import json
@@ -93,6 +109,7 @@ CONST_FORBID_SIG = "C13:const-field-under-forbidding-parent"
 NEW_FIELD_FORBID_SIG = "C13:new-field-under-forbidding-parent"
 NESTED_BLANK_LIT_SIG = "C13:blank-literal-nested-below-plain-str"
 CONST_CONTAINER_SIG = "C13:const-over-container-literal"  # F30 (repaired): a constant over a List/Set of Literals without override
+FORM_SIG = "serialisation-form-rejected-by-parent"  # + ":<form>": json_dict() is accepted, bytes()/json()/str()/yaml() of the same instance is not
 AFTER_REFUSAL_SIG = "C13:accepted-after-refusal"  # F31 (repaired): a refused class, or a class below it, passes a later check
 
 
@@ -153,6 +170,10 @@ def impl(case):
         return _impl_pln(case)
     if kind == "enm":
         return _impl_enm(case)
+    if kind == "fin":
+        return _impl_fin(case)
+    if kind == "plg":
+        return _impl_plg(case)
     from metador_core.util.typing import is_subtype
 
     if kind == "sub":
@@ -281,10 +302,11 @@ def _declared_by(fam, name):
     return out
 
 
-def _class_oracle(F, fam, name, rng, n_inst, oracle, tags, root, witness=None):
-    """Every generated instance the class accepts must be accepted, serialised, by each of its
-    ancestors; only the fields whose incompatible override was explicitly declared (by the class
-    itself or by a class between it and that ancestor) are exempt."""
+def _class_oracle(F, fam, name, rng, n_inst, oracle, tags, root, witness=None, n_forms=2):
+    """Every generated instance the class accepts must be accepted, serialised (in each form the
+    library offers: `_rejected_form`), by each of its ancestors; only the fields whose incompatible
+    override was explicitly declared (by the class itself or by a class between it and that
+    ancestor) are exempt."""
     chain = _ancestor_chain(fam, name)  # nearest first
     if not chain:
         return
@@ -295,6 +317,9 @@ def _class_oracle(F, fam, name, rng, n_inst, oracle, tags, root, witness=None):
     if not G.get_cd(fam, chain[0]).get("plugin") and any(G.get_cd(fam, a).get("plugin") for a in chain[1:]):
         tags.append("unregistered-intermediate")
     consts = [k for k, _ in G.eff_consts(fam, name)]
+    # fields that have a default here and are required in some ancestor
+    req_above = {f[0] for a in chain for f in G.eff_fields(fam, a) if G.field_required(f)}
+    dflt_req = [f[0] for f in G.eff_fields(fam, name) if f[2] is not None and f[0] in req_above]
     insts = []
     docs = [witness[1]] if witness and witness[0] == name else []  # a replay names its document
     for inp in docs + [gen_input(rng, fam, name, 2) for i in range(n_inst)]:
@@ -305,11 +330,13 @@ def _class_oracle(F, fam, name, rng, n_inst, oracle, tags, root, witness=None):
         jd = o.json_dict()
         if C12._has_nan(jd):
             continue
+        if any(k not in inp for k in dflt_req):
+            tags.append("relies-on-default-of-field-required-above")
         if any(k in inp for k in consts):
             tags.append("explicit-constant-input")
             if any(k in inp and k in jd and inp[k] != jd[k] for k in consts):
                 tags.append("foreign-constant-input")
-        insts.append((inp, jd))
+        insts.append((inp, jd, o))
     if insts:
         tags.append("child-instances")
     declared, below = set(), name
@@ -323,16 +350,17 @@ def _class_oracle(F, fam, name, rng, n_inst, oracle, tags, root, witness=None):
         if cdb.get("mandatory"):
             tags.append("below-make-mandatory" if below != name else "make-mandatory")
         parent = F.classes[anc]
-        for inp, jd in insts:
-            try:
-                parent.parse_obj(json.loads(json.dumps(jd)))
-            except Exception as e:
-                bad = _bad_fields(e)
-                if bad and bad <= declared:
-                    continue  # only explicitly declared overrides are affected
-                oracle.append(dict(kind="child-instance-rejected-by-parent", child=name, parent=anc, input=inp, serialised=jd,
-                                   fields=sorted(bad - declared), error=("%s: %s" % (type(e).__name__, e))[:300], fam=fam, root=root))
-                return
+        for i, (inp, jd, o) in enumerate(insts):
+            # every instance: the JSON value and `bytes(obj)`; the first few in every form the library offers
+            r = _rejected_form(child, parent, o, FORMS if i < n_forms else FORMS[:2], exempt=lambda bad: bad <= declared)
+            if r is None:
+                continue  # accepted, or only explicitly declared overrides are affected
+            d = dict(kind="child-instance-rejected-by-parent", child=name, parent=anc, input=inp, serialised=jd,
+                     fields=sorted(r["fields"] - declared), error=r["error"], fam=fam, root=root)
+            if r["form"] != "json_dict":
+                d.update(form=r["form"], payload=r["payload"])  # the JSON value is fine, this form of it is not
+            oracle.append(d)
+            return
         below = anc
 
 
@@ -451,9 +479,9 @@ def _impl_seq(case):
     return dict(out=out, oracle=oracle[:5], tags=sorted(set(tags)))
 
 
-def pln_family(a, b):
-    """Parent `f: b`, child re-annotating `f: a` (both plugins, nothing declared)."""
-    return [_cd("Ga", None, fields=[["f", b, None]], plugin=True), _cd("Ch", "Ga", fields=[["f", a, None]], plugin=True)]
+def pln_family(a, b, dflt=None):
+    """Parent `f: b`, child re-annotating `f: a` (both plugins, nothing declared), optionally with a default."""
+    return [_cd("Ga", None, fields=[["f", b, None]], plugin=True), _cd("Ch", "Ga", fields=[["f", a, dflt]], plugin=True)]
 
 
 def _impl_pln(case):
@@ -466,8 +494,10 @@ def _impl_pln(case):
     oracle, tags = [], []
     rng = random.Random(case.get("seed", 0))
     n_ok = 0
-    for a, b in case["pairs"]:
-        fam = pln_family(a, b)
+    todo = [(a, b, None) for a, b in case["pairs"]]
+    while todo:
+        a, b, dflt = todo.pop(0)
+        fam = pln_family(a, b, dflt)
         try:
             F = G.Family(fam)
         except (TypeError, ValueError):
@@ -483,14 +513,18 @@ def _impl_pln(case):
             tags.append("check-ok")
             if a != b:
                 tags.append("check-ok-proper")
-            n_ok += 1
+            if dflt is None:
+                n_ok += 1
+            else:
+                tags.append("child-gives-default")
             vals = G.boundary_values(a, fam, rng)
             for _ in range(6):
                 try:
                     vals.append(G.gen_json(rng, a, fam, 2))
                 except Exception:
                     pass
-            for v in [G.OMIT] + vals:
+            n_acc, queued = 0, bool(case.get("no_defaults"))
+            for v in [G.OMIT] + (vals if dflt is None else vals[:0]):
                 try:
                     inp = {} if v is G.OMIT else {"f": json.loads(json.dumps(v))}
                     o = Ch.parse_obj(json.loads(json.dumps(inp)))
@@ -499,11 +533,19 @@ def _impl_pln(case):
                     continue
                 if C12._has_nan(jd):
                     continue
-                try:
-                    Ga.parse_obj(json.loads(json.dumps(jd)))
-                except Exception as e:
-                    oracle.append(dict(kind="child-instance-rejected-by-parent", child="Ch", parent="Ga", input=inp, serialised=jd, fields=sorted(_bad_fields(e)),
-                                       error=("%s: %s" % (type(e).__name__, e))[:300], fam=fam, root="Ch", sub=a, base=b))
+                n_acc += 1
+                if dflt is None and v is not G.OMIT and not any(t[2] is not None and t[:2] == (a, b) for t in todo[:1]) and not queued:
+                    queued = True
+                    # the same pair again, the child giving the field this value as its default
+                    # (the document without the field then relies on it)
+                    todo.insert(0, (a, b, {"v": inp["f"]}))
+                r = _rejected_form(Ch, Ga, o, FORMS if n_acc <= 3 else FORMS[:2])
+                if r:
+                    d = dict(kind="child-instance-rejected-by-parent", child="Ch", parent="Ga", input=inp, serialised=jd, fields=sorted(r["fields"]),
+                             error=r["error"], fam=fam, root="Ch", sub=a, base=b)
+                    if r["form"] != "json_dict":
+                        d.update(form=r["form"], payload=r["payload"])
+                    oracle.append(d)
                     break
         finally:
             F.close()
@@ -578,11 +620,13 @@ def _impl_enm(case):
                 tags.append("explicit-constant-input")
             hit = False
             for ai in range(ci - 1, -1, -1):
-                try:
-                    classes[ai].parse_obj(json.loads(json.dumps(jd)))
-                except Exception as e:
-                    oracle.append(dict(kind="enum-child-instance-rejected-by-parent", child="E%d" % ci, parent="E%d" % ai, input=doc, serialised=jd, fields=sorted(_bad_fields(e)),
-                                       error=("%s: %s" % (type(e).__name__, e))[:300], enum=case["enum"], chain=case["chain"]))
+                r = _rejected_form(child, classes[ai], o, FORMS)
+                if r:
+                    d = dict(kind="enum-child-instance-rejected-by-parent", child="E%d" % ci, parent="E%d" % ai, input=doc, serialised=jd, fields=sorted(r["fields"]),
+                             error=r["error"], enum=case["enum"], chain=case["chain"])
+                    if r["form"] != "json_dict":
+                        d.update(form=r["form"], payload=r["payload"])
+                    oracle.append(d)
                     hit = True
                     break
             if hit:
@@ -628,11 +672,627 @@ def gen_enm_cases(ctx):
     return out
 
 
-def _bad_fields(e):
+# ----------------------------------------------------------------------------- plugin group hand-out (oracle only)
+PLG_SIG = "C13:refused-plugin-handed-out"  # F37 (repaired): a schema plugin that failed its load-time checks is handed out by a later get()
+PLG_HOWS = ("get", "getitem", "get-version", "get-class", "contains-get")
+_plg_counter = [0]
+
+
+class _PlgEP:
+    """Synthetic entry point of the real `schemas` plugin group."""
+
+    def __init__(self, obj, pkg):
+        self._obj = obj
+        self.dist = type("Dist", (), {"name": pkg})()
+
+    def load(self):
+        return self._obj
+
+
+def _impl_plg(case):
+    """Oracle only: the plugin classes of a family are installed through synthetic entry points of
+    the real `schemas` plugin group (nothing loaded yet) and then asked for, one request after the
+    other, in every way the group hands plugins out (`get(name)`, `[name]`, `get(name, version)`,
+    `get(cls)`), the same plugin repeatedly. A plugin that fails its load-time checks
+    (`PGSchema.check_plugin` = `check_types`) must be refused by EVERY request: whatever a request
+    hands out must pass an independent `check_types` (on the same family built afresh), and a plugin refused once
+    must not be handed out later (the family does not change in between)."""
+    from metador_core.plugin.types import to_ep_name
+    from metador_core.plugins import schemas
+    from metador_core.schema.core import check_types
+    from metador_core.schema.plugins import PluginPkgMeta
+
+    oracle, tags, log = [], [], []
+    fam = case["fam"]
     try:
-        return {str(er["loc"][0]) for er in e.errors() if er.get("loc")} - {"__root__"}
+        F = G.Family(fam)
+    except (TypeError, ValueError) as e:
+        return dict(out=None, oracle=[], tags=["construction-refused"], n_ok=0, log=["new:%s" % type(e).__name__])
+    _plg_counter[0] += 1
+    pkg = "vt-plg-%d" % _plg_counter[0]
+    installed = {}
+    try:
+        for cd in fam:
+            if not cd.get("plugin"):
+                continue
+            cls = F.classes[cd["name"]]
+            pname = "vt.%s.x%d" % (cd["name"].lower(), _plg_counter[0])
+            cls.Plugin.name = pname  # unique per case: the worker process lives on
+            ver = tuple(cls.Plugin.version)
+            ref = schemas.PluginRef(name=pname, version=ver)
+            ep = to_ep_name(pname, ver)
+            schemas._ENTRY_POINTS[ep] = _PlgEP(cls, pkg)
+            schemas._VERSIONS.setdefault(pname, []).append(ref)
+            installed[cd["name"]] = (pname, ver, ref, ep, cls)
+        schemas._PKG_META[pkg] = PluginPkgMeta(name=pkg, version=(0, 1, 0), plugins={"schema": [x[2] for x in installed.values()]})
+        refused, handed = {}, []
+        for i, (name, how) in enumerate(case["gets"]):
+            pname, ver, ref, ep, cls = installed[name]
+            try:
+                if how == "get":
+                    r = schemas.get(pname)
+                elif how == "getitem":
+                    r = schemas[pname]
+                elif how == "get-version":
+                    r = schemas.get(pname, ver)
+                elif how == "get-class":
+                    r = schemas.get(cls)
+                elif how == "contains-get":
+                    r = schemas[pname, ver] if (pname, ver) in schemas else None
+                else:
+                    raise ValueError(how)
+            except (TypeError, ValueError) as e:
+                log.append("%s %s: refused:%s" % (how, name, type(e).__name__))
+                tags.append("request-refused")
+                if name in refused:
+                    tags.append("request-refused-again")
+                refused.setdefault(name, i)
+                continue
+            if r is None:
+                log.append("%s %s: none" % (how, name))
+                continue
+            log.append("%s %s: handed-out" % (how, name))
+            tags.append("handed-out")
+            if refused:
+                tags.append("handed-out-after-a-refusal")
+            handed.append((i, name, how))
+            if name in refused:
+                oracle.append(dict(kind="refused-plugin-handed-out", plugin=name, request=i, how=how, refused_at=refused[name], log=list(log), fam=fam, gets=case["gets"]))
+                break
+        if not oracle:
+            seen = set()
+            for i, name, how in handed:
+                if name in seen:
+                    continue
+                seen.add(name)
+                F2 = G.Family(fam)  # the same family built afresh: no marks of earlier examinations
+                try:
+                    check_types(F2.classes[name])
+                except (TypeError, ValueError) as e:
+                    oracle.append(dict(kind="refused-plugin-handed-out", plugin=name, request=i, how=how, refused_at=None, check_error=("%s: %s" % (type(e).__name__, e))[:200],
+                                       log=list(log), fam=fam, gets=case["gets"]))
+                    break
+                finally:
+                    F2.close()
+    finally:
+        for name, (pname, ver, ref, ep, cls) in installed.items():
+            schemas._ENTRY_POINTS.pop(ep, None)
+            schemas._VERSIONS.pop(pname, None)
+            schemas._LOADED_PLUGINS.pop(ref, None)
+            for dct in (getattr(schemas, "_parents", None), getattr(schemas, "_children", None)):
+                if isinstance(dct, dict):
+                    dct.pop(ref, None)
+            for dname in ("_parent_schema", "_field_types", "_subschemas", "_partials"):
+                dct = getattr(schemas, dname, None)
+                if isinstance(dct, dict):
+                    dct.pop(cls, None)
+        schemas._PKG_META.pop(pkg, None)
+        F.close()
+    return dict(out=None, oracle=oracle, tags=sorted(set(tags)), n_ok=len(log), log=log)
+
+
+def shrink_plg(req):
+    case, detail = req["case"], req["detail"]
+
+    def fails(c):
+        try:
+            r = _impl_plg(c)
+        except Exception:
+            return None
+        return r["oracle"][0] if r["oracle"] else None
+
+    cur, det = dict(case), fails(case)
+    if not det:
+        return None
+    j = 0
+    while j < len(cur["gets"]) and len(cur["gets"]) > 1:
+        c = dict(cur, gets=cur["gets"][:j] + cur["gets"][j + 1:])
+        d = fails(c)
+        if d:
+            cur, det = c, d
+        else:
+            j += 1
+    i = len(cur["fam"]) - 1
+    while i >= 0:
+        nm = cur["fam"][i]["name"]
+        if nm not in [g[0] for g in cur["gets"]]:
+            c = dict(cur, fam=[cd for k, cd in enumerate(cur["fam"]) if k != i])
+            d = fails(c)
+            if d:
+                cur, det = c, d
+        i -= 1
+    return dict(case=cur, detail=det)
+
+
+def gen_plg_cases(ctx):
+    """The families of the load-sequence cases (focused ones, those that go on after a refusal, random
+    trees), their load orders turned into requests to the plugin group: every load becomes one to
+    three requests of a randomly chosen kind, so that refused plugins are asked for again."""
+    rng = ctx.rng
+    src = after_refusal_cases() + focused_seq()[::3] + [rand_seq_case(rng, 0) for _ in range(60 if ctx.quick else 1200)]
+    out = []
+    for c in src:
+        plugins = {cd["name"] for cd in c["fam"] if cd.get("plugin")}
+        gets = []
+        for n in c["loads"]:
+            if n in plugins:
+                for _ in range(rng.choice([1, 2, 2, 3])):
+                    gets.append([n, rng.choice(PLG_HOWS)])
+        if gets:
+            out.append(dict(kind="plg", fam=c["fam"], gets=gets))
+    # F37 as found: the same refused plugin asked for twice, each kind of request first / second
+    I = ["int"]
+    fam = seq_family([("Ch", "Ga", dict(f=(["opt", I], False))), ("Le", "Ch", dict())], [["f", I, None]])
+    for h1 in PLG_HOWS:
+        for h2 in PLG_HOWS:
+            out.append(dict(kind="plg", fam=fam, gets=[["Ch", h1], ["Ch", h2]]))
+            out.append(dict(kind="plg", fam=fam, gets=[["Le", h1], ["Ga", "get"], ["Ch", h2], ["Le", h2]]))
+    return out
+
+
+# ----------------------------------------------------------------------------- pydantic Field settings (oracle only)
+FIN_KIND = "field-settings-instance-rejected-by-parent"
+# Known findings of this case kind on the repository as it is (recorded in known_findings.json, not repaired:
+# `check_overrides` / `is_subtype` compare type hints only - metadata of Annotated dropped, `= Field(...)` is no
+# hint at all - so the pydantic Field settings of an overriding field are invisible to the check):
+FIN_ALIAS_SIG = "C13:field-info-override-unsound:alias"  # F40: the child introduces / changes / drops a Field alias
+FIN_CONSTRAINT_SIG = "C13:field-info-override-unsound:constraint"  # F41: a constraint of the parent's Field (bound, length, regex, item count, `...` = required) is dropped / loosened by the re-annotation
+# Both hold where the annotation status of the two hints agrees (both Annotated, or both not). A child
+# `Annotated[T, Field(..)]` over a plain parent hint (or the reverse) is REFUSED by `is_subtype` as the code
+# stands; a witness of that shape gets its own signature:
+FIN_ANN_OVER_PLAIN_SIG = "C13:override-unsound:annotated-over-plain"
+FIN_PLAIN_OVER_ANN_SIG = "C13:override-unsound:plain-over-annotated"
+FIN_ADDED_SIG = "C13:field-info-override-unsound:constraint-added"  # F42: a Field constraint ADDED by the child to a phantom string type makes
+# pydantic swap the type for a constrained `str` - the phantom type's parser is lost (P.f: MimeTypeStr <- C.f: MimeTypeStr = Field(max_length=3);
+# C accepts "ab", P rejects it)
+FIN_KNOWN_SIGS = (FIN_ALIAS_SIG, FIN_CONSTRAINT_SIG, FIN_ADDED_SIG)
+# Signatures of this case kind that were reported to the coordinator and are neither repaired nor recorded yet: their hits are printed as
+# notes ("PENDING-FINDING"), not as violations. Empty: F40-F42 are recorded in known_findings.json and go the normal known-finding way.
+FIN_PENDING = set()
+FIN_CONSTRAINTS = ("gt", "ge", "lt", "le", "multiple_of", "min_length", "max_length", "regex", "min_items", "max_items", "unique_items", "const")
+
+
+def _fin_field(args):
+    from pydantic import Field
+
+    return Field(**{k: v for k, v in args.items()})
+
+
+def fin_build(chain, modname=__name__):
+    """Real classes E0 <- E1 <- ... of a `fin` chain. chain[i] = None (the class leaves `f` alone) or
+    dict(ty, how, args, default, declared): `f` (re-)annotated with the grammar type `ty`, the pydantic
+    Field settings `args` attached as `Annotated[T, Field(...)]` (how = "ann"), as `f: T = Field(...)`
+    (how = "dflt") or not at all (how = "plain"); `default` = {"v": value} | None; `declared` = @override."""
+    from typing_extensions import Annotated
+
+    from metador_core.schema import MetadataSchema
+    from metador_core.schema import decorators as D
+
+    meta = type(MetadataSchema)
+    classes, prev = [], MetadataSchema
+    for i, sp in enumerate(chain):
+        name = "E%d" % i
+        body = {"__module__": modname, "__qualname__": name, "__annotations__": {}}
+        if i == 0:
+            body["__annotations__"]["size"] = int
+        if sp is not None:
+            if '"lit"' in json.dumps(sp["ty"]):
+                G.typing_cache_clear()
+            hint = G.to_hint(sp["ty"], {})
+            args, dflt = dict(sp.get("args") or {}), sp.get("default")
+            if sp["how"] == "ann":
+                hint = Annotated[hint, _fin_field(args)]
+                if dflt is not None:
+                    body["f"] = dflt["v"]
+            elif sp["how"] == "dflt":
+                from pydantic import Field
+
+                body["f"] = Field(dflt["v"] if dflt is not None else ..., **args)
+            elif dflt is not None:
+                body["f"] = dflt["v"]
+            body["__annotations__"]["f"] = hint
+        cls = meta(name, (prev,), body)
+        if sp is not None and sp.get("declared"):
+            cls = D.override("f")(cls)
+        classes.append(cls)
+        prev = cls
+    return classes
+
+
+def _fin_eff(chain, i):
+    """The spec that defines `f` as class i sees it."""
+    while chain[i] is None:
+        i -= 1
+    return chain[i]
+
+
+def _fin_values(chain):
+    """Candidate values for `f`: the boundary corpus of every type in the chain and the
+    neighbourhood of every bound named by a Field setting anywhere in the chain."""
+    vals = [5, "ab", "a/b", [1, 2], 1.5]  # ordinary values first: the witness found first reads best
+    for sp in chain:
+        if sp is None:
+            continue
+        vals += G.boundary_values(sp["ty"])
+        a = sp.get("args") or {}
+        for k in ("gt", "ge", "lt", "le", "multiple_of"):
+            if k in a:
+                b = a[k]
+                vals += [b - 1, b, b + 1, float(b), b + 0.5, 2 * b, 3 * b + 1]
+        for k in ("min_length", "max_length"):
+            if k in a:
+                vals += ["x" * n for n in (a[k] - 1, a[k], a[k] + 1) if n >= 0]
+        for k in ("min_items", "max_items"):
+            if k in a:
+                vals += [list(range(n)) for n in (a[k] - 1, a[k], a[k] + 1) if n >= 0]
+        if "unique_items" in a:
+            vals += [[1, 1], [1, 2]]
+        if "regex" in a:
+            vals += ["ab", "zz", "a1", "abab"]
+        if sp.get("default") is not None:
+            vals.append(sp["default"]["v"])
+    seen, out = set(), []
+    for v in vals:
+        key = json.dumps(v, sort_keys=True) + type(v).__name__
+        if key not in seen:
+            seen.add(key)
+            out.append(v)
+    return out
+
+
+def _impl_fin(case):
+    """Oracle only (pydantic's Field settings are outside the Lean grammar): chains E0 <- E1 [<- E2]
+    in which every class may (re-)annotate `f` and attach Field settings (alias, description,
+    bounds, lengths, regex, item counts, const, a default) via Annotated, via `= Field(...)`, or
+    not at all - on the child's and / or the parent's side. If class construction and `check_types`
+    let the chain through, whatever a class accepts (the value given under the field name, under
+    each alias of the chain, or left to the default) must serialise - in every form - to something
+    each of its ancestors accepts, unless the override was declared."""
+    from metador_core.schema.core import check_types
+
+    oracle, tags = [], []
+    chain = case["chain"]
+    try:
+        classes = fin_build(chain)
+    except Exception as e:  # noqa: BLE001 - pydantic raises ValueError / ConfigError / TypeError for settings it cannot enforce
+        return dict(out=None, oracle=[], tags=["construction-refused:%s" % type(e).__name__], n_ok=0)
+    try:
+        check_types(classes[-1], recheck=True)
+    except (TypeError, ValueError) as e:
+        return dict(out=None, oracle=[], tags=["check-refused:%s" % type(e).__name__], n_ok=0)
+    tags.append("check-ok")
+    hows = sorted({sp["how"] for sp in chain if sp})
+    tags.append("hows:" + "+".join(hows))
+    if any((sp.get("args") or {}).get("alias") for sp in chain if sp):
+        tags.append("alias-in-chain")
+    if any(set(sp.get("args") or {}) & set(FIN_CONSTRAINTS) for sp in chain if sp):
+        tags.append("constraint-in-chain")
+    keys = ["f"] + sorted({sp["args"]["alias"] for sp in chain if sp and (sp.get("args") or {}).get("alias")})
+    docs = case.get("docs")
+    if docs is None:
+        docs = [{"size": 1}] + [{"size": 1, k: v} for v in _fin_values(chain) for k in keys]
+    for ci in range(1, len(classes)):
+        child = classes[ci]
+        n_acc = 0
+        for doc in docs:
+            try:
+                o = child.parse_obj(json.loads(json.dumps(doc)))
+                jd = o.json_dict()
+            except Exception:
+                continue
+            if C12._has_nan(jd):
+                continue
+            n_acc += 1
+            tags.append("child-instances")
+            if not any(k in doc for k in keys):
+                tags.append("relies-on-default")
+            for ai in range(ci - 1, -1, -1):
+                if any(chain[k] is not None and chain[k].get("declared") for k in range(ai + 1, ci + 1)):
+                    break  # explicitly declared: this ancestor and those above need not accept
+                r = _rejected_form(child, classes[ai], o, FORMS if n_acc <= 4 else FORMS[:2])
+                if r:
+                    d = dict(kind=FIN_KIND, child=ci, parent=ai, input=doc, serialised=jd, fields=sorted(r["fields"]), error=r["error"], chain=chain)
+                    if r["form"] != "json_dict":
+                        d.update(form=r["form"], payload=r["payload"])
+                    if not case.get("noshrink"):
+                        # minimised right here (cheap, and the signature is read off the minimal chain)
+                        sh = shrink_fin(dict(case=case, detail=d))
+                        if sh:
+                            d = dict(sh["detail"], shrunk_case=sh["case"])
+                    oracle.append(d)
+                    return dict(out=None, oracle=oracle, tags=sorted(set(tags)), n_ok=1)
+    return dict(out=None, oracle=oracle, tags=sorted(set(tags)), n_ok=1)
+
+
+def _fin_aspect(detail):
+    """What the accepted child changed relative to the rejecting ancestor (read off the - shrunk - chain)."""
+    chain = detail["chain"]
+    cs, ps = _fin_eff(chain, detail["child"]), _fin_eff(chain, detail["parent"])
+    ca, pa = cs.get("args") or {}, ps.get("args") or {}
+    if ca.get("alias") != pa.get("alias"):
+        aspect = "alias"  # the key the value travels under (dumps are by alias; an unknown key is an extra field)
+    elif any(k in pa and ca.get(k) != pa[k] for k in FIN_CONSTRAINTS):
+        aspect = "constraint"  # a bound of the ancestor's field is gone / different (a re-annotated field is a fresh field)
+    elif any(k in ca and k not in pa for k in FIN_CONSTRAINTS):
+        aspect = "constraint-added"  # pydantic swaps the type for a constrained one
+    elif cs["ty"] != ps["ty"]:
+        aspect = "type"
+    elif ps["how"] == "dflt" and ps.get("default") is None and not (cs["how"] == "dflt" and cs.get("default") is None):
+        aspect = "required"  # `= Field(...)`: required even if nullable
+    elif cs.get("default") is not None and ps.get("default") is None:
+        aspect = "default"
+    else:
+        aspect = "other"
+    return aspect, cs["how"], ps["how"]
+
+
+def shrink_fin(req):
+    """Inside a worker: the witness document only, then drop classes / settings / defaults of the
+    chain while the same kind of witness (same serialisation form) is still produced."""
+    case, detail = req["case"], req["detail"]
+
+    def fails(c):
+        try:
+            r = _impl_fin(dict(c, noshrink=True))
+        except Exception:
+            return None
+        ds = [d for d in r["oracle"] if d.get("form") == detail.get("form")]
+        return ds[0] if ds else None
+
+    case = {k: v for k, v in case.items() if k != "noshrink"}
+    cur = dict(case, docs=[detail["input"]])
+    det = fails(cur)
+    if not det:
+        cur, det = dict(case), fails(case)
+        if not det:
+            return None
+    changed = True
+    while changed:
+        changed = False
+        chain = cur["chain"]
+        cands = []
+        for i in range(1, len(chain)):
+            if len(chain) > 2:
+                cands.append(chain[:i] + chain[i + 1:])  # without class i
+            if chain[i] is not None and i < len(chain) - 1:
+                cands.append(chain[:i] + [None] + chain[i + 1:])
+        for i, sp in enumerate(chain):
+            if sp is None:
+                continue
+            for k in sorted(sp.get("args") or {}):
+                sp2 = dict(sp, args={kk: vv for kk, vv in sp["args"].items() if kk != k})
+                cands.append(chain[:i] + [sp2] + chain[i + 1:])
+            if sp.get("default") is not None:
+                cands.append(chain[:i] + [dict(sp, default=None)] + chain[i + 1:])
+            if sp["how"] != "plain" and not (sp.get("args") or {}):
+                cands.append(chain[:i] + [dict(sp, how="plain")] + chain[i + 1:])
+        for ch2 in cands:
+            c = dict(cur, chain=ch2)
+            d = fails(c)
+            if d:
+                cur, det, changed = c, d, True
+                break
+    return dict(case=cur, detail=det)
+
+
+FIN_TYPES = {
+    # inherited type -> (types a child may re-annotate with, settings that make sense for it)
+    "pint": ([["pint"]], [dict(gt=0), dict(ge=1, lt=10), dict(le=5), dict(multiple_of=2)]),
+    "int": ([["int"]], [dict(gt=0)]),  # strict phantom type: pydantic refuses bounds it cannot enforce
+    "pfloat": ([["pfloat"], ["pint"]], [dict(gt=0), dict(le=1.5)]),
+    "pstr": ([["pstr"], ["nes"]], [dict(max_length=2), dict(min_length=2), dict(regex="^a")]),
+    "str": ([["str"], ["nes"]], [dict(max_length=2), dict(regex="^a")]),
+    "nes": ([["nes"], ["mime"]], [dict(max_length=3)]),
+    "mime": ([["mime"]], [dict(max_length=3), dict(min_length=2)]),
+    "list": ([["list", ["int"]]], [dict(max_items=1), dict(min_items=1), dict(unique_items=True)]),
+    "optint": ([["opt", ["pint"]], ["pint"]], [dict(gt=0), dict(lt=3)]),
+    "lit": ([["lit", ["a", "b"]], ["lit", ["a"]]], []),
+}
+FIN_TOP = {"pint": ["pint"], "int": ["int"], "pfloat": ["pfloat"], "pstr": ["pstr"], "str": ["str"], "nes": ["nes"], "mime": ["mime"], "list": ["list", ["int"]], "optint": ["opt", ["pint"]], "lit": ["lit", ["a", "b"]]}
+FIN_DEFAULTS = {"pint": 4, "int": 4, "pfloat": 1.0, "pstr": "ab", "str": "ab", "nes": "a/b", "mime": "a/b", "list": [1], "optint": 2, "lit": "a"}
+FIN_ALIASES = ["@id", "f_alias"]
+
+
+def _fin_settings(tk, side):
+    """Field settings one side of an override may carry: nothing, something harmless, an alias,
+    each constraint that fits the type, const (with a default), combinations."""
+    cons = FIN_TYPES[tk][1]
+    out = [dict(), dict(description="text"), dict(alias=FIN_ALIASES[0]), dict(alias=FIN_ALIASES[1] if side == "child" else FIN_ALIASES[0], title="T")]
+    out += [dict(c) for c in cons]
+    if cons:
+        out.append(dict(cons[0], alias=FIN_ALIASES[0]))
+    out.append(dict(const=True))
+    return out
+
+
+def _fin_specs(tk, ty, side):
+    """All ways one class can put `f: ty` with settings: plain (no settings, with / without a default),
+    Annotated[ty, Field(...)], `= Field(...)`."""
+    dv = {"v": FIN_DEFAULTS[tk]}
+    out = [dict(ty=ty, how="plain", args={}, default=None), dict(ty=ty, how="plain", args={}, default=dv)]
+    for a in _fin_settings(tk, side):
+        for how in ("ann", "dflt"):
+            if "const" in a:
+                out.append(dict(ty=ty, how=how, args=a, default=dv))
+            else:
+                out.append(dict(ty=ty, how=how, args=a, default=None))
+                if a.get("alias") or not a:
+                    out.append(dict(ty=ty, how=how, args=a, default=dv))
+    return out
+
+
+def fin_space():
+    """Small scope, complete: two-class chains over each type of FIN_TYPES: parent spec x child spec
+    (child type the same or narrower)."""
+    out = []
+    for tk in sorted(FIN_TYPES):
+        for ps in _fin_specs(tk, FIN_TOP[tk], "parent"):
+            for x in FIN_TYPES[tk][0]:
+                for cs in _fin_specs(tk, x, "child"):
+                    out.append(dict(kind="fin", chain=[ps, cs]))
+    return out
+
+
+def rand_fin_case(rng):
+    """Chains of 3-4 classes: every class below the top leaves `f` alone or re-annotates it in one of
+    the ways of `_fin_specs`, sometimes declared."""
+    tk = rng.choice(sorted(FIN_TYPES))
+    chain = [rng.choice(_fin_specs(tk, FIN_TOP[tk], "parent"))]
+    for i in range(rng.choice([2, 2, 3])):
+        if rng.random() < 0.35:
+            chain.append(None)
+            continue
+        sp = dict(rng.choice(_fin_specs(tk, rng.choice(FIN_TYPES[tk][0]), rng.choice(["child", "parent"]))))
+        if rng.random() < 0.12:
+            sp["declared"] = True
+        chain.append(sp)
+    if all(sp is None for sp in chain[1:]):
+        chain[-1] = rng.choice(_fin_specs(tk, FIN_TOP[tk], "child"))
+    return dict(kind="fin", chain=chain)
+
+
+def gen_fin_cases(ctx):
+    spc = fin_space()
+    total = len(spc)
+    if ctx.quick:
+        spc = ctx.rng.sample(spc, 320)
+        n = 80
+    else:
+        # a third of the space per run (the whole of it takes ~15 min of the thorough budget: every hit is minimised)
+        spc = ctx.rng.sample(spc, 4000)
+        n = 800
+    ctx.notes.append("field settings: %d of the %d two-class chains (%d types x parent spec x child spec), %d random chains of 3-4 classes, %d fixed probes" % (len(spc), total, len(FIN_TYPES), n, len(focused_fin())))
+    return focused_fin() + spc + [rand_fin_case(ctx.rng) for _ in range(n)]
+
+
+def focused_fin():
+    """Always present: the alias / constraint / default patterns on each attachment form, in two- and three-class chains."""
+    out = []
+    P = lambda ty, how="plain", default=None, **a: dict(ty=ty, how=how, args=a, default=default)
+    I, S = ["pint"], ["pstr"]
+    for ph in ("plain", "ann", "dflt"):
+        for ch in ("ann", "dflt"):
+            pa = {} if ph == "plain" else dict(description="d")
+            out.append(dict(kind="fin", chain=[P(I, ph, **pa), P(I, ch, alias="@id")]))
+            out.append(dict(kind="fin", chain=[P(["int"], ph, **pa), P(["int"], ch, alias="@id")]))
+            out.append(dict(kind="fin", chain=[P(I, ph, **pa), None, P(I, ch, alias="@id"), None]))
+            out.append(dict(kind="fin", chain=[P(I, ph, **pa), P(I, ch, alias="@id", default={"v": 3})]))
+            out.append(dict(kind="fin", chain=[P(S, ph, **pa), P(S, ch, max_length=2)]))
+            out.append(dict(kind="fin", chain=[P(I, ph, **pa), P(I, ch, gt=0)]))
+            out.append(dict(kind="fin", chain=[P(I, ph, **pa), P(I, ch, const=True, default={"v": 3})]))
+        for ch in ("ann", "dflt"):
+            # a constraint ADDED to a phantom string type
+            pa = {} if ph == "plain" else dict(description="d")
+            out.append(dict(kind="fin", chain=[P(["mime"], ph, **pa), P(["mime"], ch, max_length=3)]))
+            out.append(dict(kind="fin", chain=[P(["nes"], ph, **pa), P(["mime"], ch, min_length=2)]))
+        if ph != "plain":
+            for ch in ("plain", "ann", "dflt"):
+                ca = {} if ch == "plain" else dict(description="d")
+                out.append(dict(kind="fin", chain=[P(I, ph, alias="@id"), P(I, ch, **ca)]))
+                out.append(dict(kind="fin", chain=[P(S, ph, max_length=2), P(S, ch, **ca)]))
+                out.append(dict(kind="fin", chain=[P(I, ph, gt=0), P(I, ch, **ca)]))
+                out.append(dict(kind="fin", chain=[P(I, ph, gt=0), None, P(I, ch, **ca)]))
+    return out
+
+
+def _bad_fields(e):
+    """Top-level field names a validation error complains about (`parse_raw` reports through a
+    wrapper model: locations start with `__root__` there)."""
+    try:
+        out = set()
+        for er in e.errors():
+            loc = [x for x in er.get("loc", ()) if x != "__root__"]
+            if loc:
+                out.add(str(loc[0]))
+        return out
     except Exception:
         return set()
+
+
+# ----------------------------------------------------------------------------- serialisation forms
+# Every way the library offers to turn an instance into something that can be stored / handed on.
+# `bytes(obj)` is what gets written into containers (the property's observation point:
+# `Parent.parse_raw(bytes(child_obj))`); `json_dict` comes first because the signatures of
+# violations that show in every form are those of the value, not of the form.
+FORMS = ("json_dict", "bytes", "json", "str", "yaml")
+TEXT_FORMS = ("bytes", "json", "str")
+
+
+def _payload(o, form):
+    if form == "json_dict":
+        return o.json_dict()
+    if form == "bytes":
+        return bytes(o)
+    if form == "json":
+        return o.json()
+    if form == "str":
+        return str(o)
+    if form == "yaml":
+        return o.yaml()
+    raise ValueError(form)
+
+
+def _parse_form(cls, form, payload):
+    if form == "json_dict":
+        return cls.parse_obj(json.loads(json.dumps(payload)))
+    return cls.parse_raw(payload)
+
+
+def _payload_text(payload):
+    if isinstance(payload, bytes):
+        return payload.decode("utf-8", "replace")
+    return payload if isinstance(payload, str) else json.dumps(payload)
+
+
+def _rejected_form(child, parent, o, forms, exempt=None):
+    """The first serialisation form of the instance `o` that `parent` rejects although the class
+    of the instance reads it back: dict(form, payload, error, fields), or None. `exempt(fields)`
+    true = the rejection only concerns fields that need not be accepted (declared overrides)."""
+    for form in forms:
+        try:
+            p = _payload(o, form)
+        except Exception:
+            continue  # no such serialisation: the round trip is C12's business
+        try:
+            _parse_form(parent, form, p)
+            continue
+        except Exception as e:
+            err = e
+        bad = _bad_fields(err)
+        if form in TEXT_FORMS:
+            # the fields from a direct parse of the document (a YAML fallback may say less)
+            try:
+                parent.parse_obj(json.loads(p))
+            except Exception as e2:
+                bad = _bad_fields(e2) or bad
+        if exempt is not None and bad and exempt(bad):
+            continue
+        try:
+            _parse_form(child, form, p)
+        except Exception:
+            continue  # the class does not read its own output back: C12's business
+        return dict(form=form, payload=_payload_text(p)[:400], error=("%s: %s" % (type(err).__name__, err))[:300], fields=bad)
+    return None
 
 
 def _ancestor_chain(fam, name):
@@ -699,11 +1359,13 @@ def _impl_anc(case):
         except Exception:
             continue  # C12's business
         for A in ancestors:
-            try:
-                A.parse_obj(json.loads(json.dumps(jd)))
-            except Exception as e:
-                oracle.append(dict(kind="instance-rejected-by-ancestor", schema=case["schema"], ancestor=A.__name__, input=json.loads(json.dumps(inp)),
-                                   fields=sorted(_bad_fields(e)), error=("%s: %s" % (type(e).__name__, e))[:300]))
+            r = _rejected_form(S, A, o, FORMS if nvalid <= 1 else FORMS[:2])
+            if r:
+                d = dict(kind="instance-rejected-by-ancestor", schema=case["schema"], ancestor=A.__name__, input=json.loads(json.dumps(inp)),
+                         fields=sorted(r["fields"]), error=r["error"])
+                if r["form"] != "json_dict":
+                    d.update(form=r["form"], payload=r["payload"])
+                oracle.append(d)
                 break
     tags.append("installed:%s:%d-ancestors" % (case["schema"], len(ancestors)))
     if ancestors:
@@ -770,7 +1432,7 @@ def compare(case, ir, mo):
     kind = case["kind"]
     if kind == "anc":
         return None
-    if kind in ("pln", "enm"):
+    if kind in ("pln", "enm", "fin", "plg"):
         return None
     nf = len(fam_lines(case["fam"]))
     if kind == "seq":
@@ -1008,6 +1670,20 @@ def _new_field(rng, fam, fname):
     return [fname, ty, dflt]
 
 
+def _maybe_default(rng, fam, ty, p=0.3):
+    """Sometimes a default value for a re-annotated field (`f: T = v`): a valid value of the type.
+    The field may be required in the ancestors - instances that leave it out then rely on the default."""
+    if rng.random() >= p or '"model"' in json.dumps(ty):
+        return None
+    try:
+        v = G.gen_json(rng, G.unopt(ty), fam, 1)
+    except Exception:
+        return None
+    if v is G.OMIT or v is None or not G.model_safe_json(v):
+        return None
+    return {"v": v}
+
+
 def _reannotate(rng, y, mode):
     if mode == "narrow":
         return narrow(rng, y)
@@ -1043,7 +1719,7 @@ def rand_ovr_case(rng):
         if rng.random() < 0.45:
             # the intermediate class re-annotates the field itself
             cur_f = _reannotate(rng, cur_f, rng.choice(["narrow", "narrow", "narrow", "widen", "widen", "same", "random"]))
-            mid["fields"].append(["f", cur_f, None])
+            mid["fields"].append(["f", cur_f, _maybe_default(rng, fam, cur_f)])
             if rng.random() < 0.35:
                 mid["overrides"].append("f")
         if rng.random() < (0.25 if forbid else 0.5):
@@ -1057,7 +1733,8 @@ def rand_ovr_case(rng):
     if mode == "mandatory":
         child["mandatory"] = ["f"]
     elif mode != "inherit":
-        child["fields"].append(["f", _reannotate(rng, cur_f, mode), None])
+        ty = _reannotate(rng, cur_f, mode)
+        child["fields"].append(["f", ty, _maybe_default(rng, fam, ty)])
         if rng.random() < 0.2:
             child["overrides"].append("f")
     r = rng.random()
@@ -1232,6 +1909,45 @@ def override_chain_space():
     return out
 
 
+DEFAULT_SPACE = [
+    # (inherited type y, re-annotation x, default value of x)
+    (["int"], ["int"], 3), (["opt", ["int"]], ["int"], 3), (["opt", ["int"]], ["opt", ["int"]], 3), (["str"], ["str"], "m"), (["nes"], ["nes"], "m"), (["nes"], ["mime"], "a/b"),
+    (["lit", ["a", "b"]], ["lit", ["a", "b"]], "b"), (["lit", ["a", "b"]], ["lit", ["a"]], "a"), (["list", ["int"]], ["list", ["int"]], [1, 2]), (["list", ["int"]], ["list", ["int"]], []),
+    (["union", [["int"], ["str"]]], ["int"], 0), (["bool"], ["bool"], False), (["float"], ["float"], 1.5),
+    (["ann", ["int"]], ["ann", ["int"]], 3),
+]
+
+
+def default_space():
+    """Small scope, complete: Ga.f : y (required unless y is Optional) <- [Pa] <- Ch [<- Le]; Pa
+    and / or Ch re-annotate `f` with x and give it a DEFAULT (a legal narrowing: the type stays or
+    gets narrower); Pa a plugin or a plain class; a leaf below that leaves the field alone. The
+    instances generated for such a class leave the field out with probability 0.4, i.e. rely on
+    the default, and whatever form they are serialised in must carry what the ancestors require."""
+    out = []
+    for y, x, v in DEFAULT_SPACE:
+        for where in ("ch", "pa", "both", "pa-then-plain"):
+            for mid_plugin in (False, True):
+                for leaf in (False, True):
+                    fam = base_table()
+                    fam.append(_cd("Ga", None, fields=[["f", y, None], ["g", ["int"], None]], plugin=True))
+                    pa = _cd("Pa", "Ga", plugin=mid_plugin)
+                    ch = _cd("Ch", "Pa", plugin=True)
+                    if where in ("pa", "both", "pa-then-plain"):
+                        pa["fields"].append(["f", x, {"v": v}])
+                    if where in ("ch", "both"):
+                        ch["fields"].append(["f", x, {"v": v}])
+                    if where == "pa-then-plain":
+                        ch["fields"].append(["f", x, None])  # required again: a fresh field
+                    fam += [pa, ch]
+                    root = "Ch"
+                    if leaf:
+                        fam.append(_cd("Le", "Ch", plugin=True))
+                        root = "Le"
+                    out.append(dict(kind="ovr", fam=fam, root=root, seed=19, n_inst=8))
+    return out
+
+
 def const_forbid_probe():
     """Known situation: constants added below a parent that forbids extra fields."""
     fam = base_table()
@@ -1250,7 +1966,12 @@ def gen_ovr_cases(ctx):
     else:
         ctx.exhaustive_spaces.append("extra policy of parent x extra policy of child x {no new member, required / Optional / defaulted new field, constant} x {direct child, below a plain intermediate class}: %d families" % len(pol))
         ctx.exhaustive_spaces.append("three-class chains Ga.f:y <- Pa (plugin or plain class; f untouched or re-annotated m, declared or not) <- Ch (f untouched or re-annotated x, declared or not), y, m, x from %d types: %d families" % (len(OVR_SPACE_TYPES), len(chn)))
-    return focused_ovr() + pol + chn + [rand_ovr_case(ctx.rng) for _ in range(n)]
+    dfl = default_space()
+    if ctx.quick:
+        dfl = ctx.rng.sample(dfl, 90)
+    else:
+        ctx.exhaustive_spaces.append("defaults given to inherited fields: %d (inherited type, re-annotation, default) triples x {in Ch, in Pa, in both, in Pa and taken back in Ch} x Pa plugin or plain class x with / without a leaf below: %d families" % (len(DEFAULT_SPACE), len(default_space())))
+    return focused_ovr() + pol + chn + dfl + [rand_ovr_case(ctx.rng) for _ in range(n)]
 
 
 # ----------------------------------------------------------------------------- load sequences
@@ -1292,7 +2013,7 @@ def _derive(rng, fam, name, parent, plugin_p=0.8):
         cur, r = pf["f"][1], rng.random()
         if r < 0.4:
             ty = _reannotate(rng, cur, rng.choice(["narrow", "narrow", "narrow", "widen", "widen", "same", "random"]))
-            cd["fields"].append(["f", ty, None])
+            cd["fields"].append(["f", ty, _maybe_default(rng, fam, ty)])
             if rng.random() < 0.25:
                 cd["overrides"].append("f")
         elif r < 0.6 and (G.is_nullable(cur) or rng.random() < 0.2):
@@ -1301,7 +2022,8 @@ def _derive(rng, fam, name, parent, plugin_p=0.8):
         if G.is_nullable(pf["g"][1]) and rng.random() < 0.5:
             cd["mandatory"].append("g")
         else:
-            cd["fields"].append(["g", _reannotate(rng, pf["g"][1], rng.choice(["narrow", "widen"])), None])
+            ty = _reannotate(rng, pf["g"][1], rng.choice(["narrow", "widen", "same"]))
+            cd["fields"].append(["g", ty, _maybe_default(rng, fam, ty, 0.5)])
     if "k" in pf:
         kt, r = pf["k"][1], rng.random()
         mem = _lit_members(kt)
@@ -1732,27 +2454,41 @@ def run(ctx):
                 "reachable class parsed by each of its ancestors; (seq) trees of 2-7 classes (chain of 2-4 levels + siblings; re-annotation, @make_mandatory, Literal discriminator pinned by @add_const_fields, at every level), "
                 "constants over collection-valued discriminators with and without override=True; the plugins loaded in some order by check_types without recheck, going on after refusals (the refused class again, its subclasses), vs model loadPlugin with the marks kept / cleared on refusal, "
                 "instances (also with explicit values in constant fields) of everything reachable parsed by every ancestor after each load that passes, whatever was refused before, "
-                "documents decoded by family classes vs model; (enm, oracle only) Enum discriminators pinned by constants; (pln, oracle only) override pairs with the plain builtins str/int/float/bool on either side; (anc) installed schemas parsed by every ancestor. Non-trivial = tagged.")
+                "documents decoded by family classes vs model; (enm, oracle only) Enum discriminators pinned by constants; (pln, oracle only) override pairs with the plain builtins str/int/float/bool on either side, with and without a default given by the child; "
+                "(fin, oracle only) pydantic Field settings on either side of an override (Annotated / `= Field(..)` / none); (plg, oracle only) plugins installed through synthetic entry points of the real schemas group and requested repeatedly; "
+                "(anc) installed schemas parsed by every ancestor. Child instances reach the ancestors as json_dict() and bytes(obj), the first ones of each class also as json(), str() and yaml(); re-annotated fields come with and without defaults. Non-trivial = tagged.")
     ctx.assumptions += [
         "date/time types are outside the grammar (excluded by the property)",
         "runtype 0.3.5 `<=` on canonical types, typing's normalisation of Union/Optional/Literal and pydantic 1.10 validation are modelled for the grammar and compared on every case",
         "ClassTableSound (every nominal subclass edge is an inclusion of accepted values) is a hypothesis of isSubtype_sound; it fails for the installed pair QualHashsumStr < HashsumStr (known finding F12, theorem qualhashsum_not_subtype)",
     ]
+    import time
+
+    t_phase = [time.time()]
+
+    def phase(name):
+        ctx.notes.append("phase %s: %.1f s" % (name, time.time() - t_phase[0]))
+        t_phase[0] = time.time()
+
     C12.load_nf(ctx)
     ctx.oracle_hits[:] = [h for h in ctx.oracle_hits if h.get("group") != "normal-forms"]  # C12's business
     report_crashes(ctx)
     corpus = core.load_corpus(ID)
     sub = [c for c in corpus if c["kind"] == "sub"] + gen_sub_cases(ctx)
     ctx.correspond("is_subtype", MOD, sub, lines, "drv_cod", compare=compare, timeout=300)
+    phase("sub")
     acc = [c for c in corpus if c["kind"] == "acc"] + gen_acc_cases(ctx)
     C12.ensure_nf(ctx, acc, report=False)
     report_crashes(ctx)
     ctx.correspond("accepts", MOD, acc, lines, "drv_cod", compare=compare, timeout=120)
+    phase("acc")
     ovr = [c for c in corpus if c["kind"] == "ovr"] + gen_ovr_cases(ctx)
     ctx.correspond("check_types", MOD, ovr, lines, "drv_cod", compare=compare, timeout=120)
+    phase("ovr")
     seq = [c for c in corpus if c["kind"] == "seq"] + gen_seq_cases(ctx)
     C12.ensure_nf(ctx, seq, report=False)
     ctx.correspond("load-order", MOD, seq, lines, "drv_cod", compare=compare, timeout=120)
+    phase("seq")
     enm = [c for c in corpus if c["kind"] == "enm"] + gen_enm_cases(ctx)
     if not ctx.quick:
         ctx.exhaustive_spaces.append("Enum discriminators: {str, int, plain Enum} x {E, Optional[E]} x chains of 2-4 classes x pin (member, raw value, foreign value, member of another Enum) at every level, second pin below: %d chains" % len(enm))
@@ -1765,6 +2501,7 @@ def run(ctx):
         n_enm += r["ok"]["n_ok"]
         ctx.note_case(c, r["ok"]["tags"], len(c["docs"]))
     ctx.notes.append("enum discriminators: %d chains, %d let through by class construction + check_types" % (len(enm), n_enm))
+    phase("enm")
     pln = [c for c in corpus if c["kind"] == "pln"] + gen_pln_cases(ctx)
     n_pln = 0
     for c, r in zip(pln, pool.run(MOD, "impl", pln, timeout=300)):
@@ -1778,6 +2515,11 @@ def run(ctx):
         n_pln += r["ok"]["n_ok"]
         ctx.note_case(c, r["ok"]["tags"], len(c["pairs"]))
     ctx.notes.append("plain builtins: %d override pairs, %d let through by check_types and searched for a witness" % (sum(len(c["pairs"]) for c in pln), n_pln))
+    phase("pln")
+    run_oracle_only(ctx, "plg", [c for c in corpus if c["kind"] == "plg"] + gen_plg_cases(ctx), "plugin-group-requests", lambda c: len(c["gets"]))
+    phase("plg")
+    run_oracle_only(ctx, "fin", [c for c in corpus if c["kind"] == "fin"] + gen_fin_cases(ctx), "field-settings", lambda c: 1)
+    phase("fin")
     names = C12.installed_names()
     anc = [c for c in corpus if c["kind"] == "anc"] + gen_anc_cases(ctx, names)
     res = pool.run(MOD, "impl", anc, timeout=300)
@@ -1793,7 +2535,42 @@ def run(ctx):
         n_anc += r["ok"]["nvalid"] * r["ok"]["ancestors"]
         ctx.note_case(c, r["ok"]["tags"], c.get("n", 1))
     ctx.notes.append("installed schemas: %d (instance, ancestor) parses" % n_anc)
+    phase("anc")
     prioritise_hits(ctx)
+
+
+def run_oracle_only(ctx, kind, cases, group, size):
+    """Cases of an oracle-only kind (`plg`, `fin`): real code only; `fin` hits are shrunk right away
+    (cheap) so that the signature is that of the minimal chain, one representative per raw signature."""
+    n_ok, raw_seen, pending = 0, {}, {}
+    for c, r in zip(cases, pool.run(MOD, "impl", cases, timeout=300)):
+        if "timeout" in r:
+            ctx.oracle_hit(c, {"kind": "does-not-terminate", "limit_s": 300}, group=group)
+            continue
+        if "ok" not in r:
+            raise lean.InfraError("harness failed on %s: %s" % (core.canon(c)[:200], core.canon(r)[:400]))
+        n_ok += 1 if r["ok"]["n_ok"] else 0
+        ctx.note_case(c, r["ok"]["tags"], size(c))
+        for d in r["ok"]["oracle"]:
+            if kind != "fin":
+                ctx.oracle_hit(c, d, group=group)
+                continue
+            c2 = d.get("shrunk_case") or c
+            d2 = {k: v for k, v in d.items() if k != "shrunk_case"}
+            sig = signature(c2, d2)
+            raw = sig + "|%s:%s/%s" % _fin_aspect(d2)
+            if raw in raw_seen:
+                raw_seen[raw] += 1
+                continue
+            raw_seen[raw] = 1
+            d2["aspect"] = "%s:%s/%s" % _fin_aspect(d2)  # what changed : how the child / the ancestor attach their settings
+            if sig in FIN_PENDING:
+                pending.setdefault(d2["aspect"], (c2, d2))
+            else:
+                ctx.oracle_hit(c2, d2, group=group)
+    ctx.notes.append("%s: %d cases, %d let through / answered" % (group, len(cases), n_ok))
+    for k, (c2, d2) in sorted(pending.items()):
+        ctx.notes.append("PENDING-FINDING %s (%s): chain=%s input=%s error=%s" % (signature(c2, d2), k, json.dumps(c2["chain"]), json.dumps(d2["input"]), d2["error"][:120].replace("\n", " ")))
 
 
 def prioritise_hits(ctx, budget=30):
@@ -1803,10 +2580,12 @@ def prioritise_hits(ctx, budget=30):
     (e.g. `union(qhash, lit(a)) < hash`), which would use up the six places. So: hits that do not
     involve `qhash` first; the others are shrunk here (smallest first, up to `budget` distinct
     signatures) and whatever does not collapse to the known signature comes next."""
-    first, f12, q, seen = [], [], {}, set()
+    first, f12, q, seen, finknown = [], [], {}, set(), {}
     for h in ctx.oracle_hits:
         pre = signature(h["case"], h["detail"])
-        if pre == F12_SIG:
+        if pre in FIN_KNOWN_SIGS:
+            finknown.setdefault(pre, []).append(h)  # recorded findings: one representative each, after everything new
+        elif pre == F12_SIG:
             f12.append(h)
         elif "qhash" not in pre:
             first.append(h)
@@ -1828,7 +2607,8 @@ def prioritise_hits(ctx, budget=30):
             except Exception as e:
                 ctx.notes.append("pre-shrink failed: %r" % (e,))
         rest += hs
-    ctx.oracle_hits[:] = first + real + f12[:1] + rest + f12[1:]
+    fk = [hs[0] for _, hs in sorted(finknown.items())]
+    ctx.oracle_hits[:] = first + real + f12[:1] + fk + rest + f12[1:] + [h for _, hs in sorted(finknown.items()) for h in hs[1:]]
 
 
 # ----------------------------------------------------------------------------- signatures / shrinking
@@ -1901,10 +2681,33 @@ def signature(case, detail):
         if _is_f12(a, b):
             return F12_SIG
         return "%s:subtype-unsound:%s<%s" % (ID, G.ty_str(a), G.ty_str(b))
+    if kind in ("enum-child-instance-rejected-by-parent", "instance-rejected-by-ancestor") and detail.get("form"):
+        return "%s:%s:%s" % (ID, FORM_SIG, detail["form"])
     if kind == "enum-child-instance-rejected-by-parent":
         return "%s:enum-constant-rejected-by-parent:%s:%s" % (ID, detail.get("enum"), ",".join(detail.get("fields") or []))
+    if kind == "refused-plugin-handed-out":
+        return PLG_SIG
+    if kind == FIN_KIND:
+        if detail.get("form"):
+            return "%s:%s:%s" % (ID, FORM_SIG, detail["form"])
+        try:
+            aspect, hc, hp = _fin_aspect(detail)
+        except Exception:
+            return "%s:field-info-override-unsound" % ID
+        if hc == "ann" and hp != "ann":
+            return FIN_ANN_OVER_PLAIN_SIG
+        if hc != "ann" and hp == "ann":
+            return FIN_PLAIN_OVER_ANN_SIG
+        if aspect == "alias":
+            return FIN_ALIAS_SIG
+        if aspect in ("constraint", "required"):
+            return FIN_CONSTRAINT_SIG
+        return "%s:field-info-override-unsound:%s" % (ID, aspect)
     if kind == "accepted-after-refusal":
         return AFTER_REFUSAL_SIG
+    if kind == "child-instance-rejected-by-parent" and detail.get("form"):
+        # the JSON value of the instance is accepted by the ancestor, this serialisation form of it is not
+        return "%s:%s:%s" % (ID, FORM_SIG, detail["form"])
     if kind == "child-instance-rejected-by-parent":
         fam = detail.get("fam") or case.get("fam")
         ch, pa = detail.get("child"), detail.get("parent")
@@ -1973,6 +2776,16 @@ def shrink(ctx, case, detail):
         return dict(case, pairs=[[a, b]]), detail
     if kind == "enum-child-instance-rejected-by-parent":
         return dict(case, docs=[detail["input"]]), detail
+    if kind == "refused-plugin-handed-out":
+        r = pool.run_one(MOD, "shrink_plg", dict(case=case, detail=detail), timeout=600)
+        if "ok" in r and r["ok"]:
+            return r["ok"]["case"], r["ok"]["detail"]
+        return case, detail
+    if kind == FIN_KIND:
+        r = pool.run_one(MOD, "shrink_fin", dict(case=case, detail=detail), timeout=600)
+        if "ok" in r and r["ok"]:
+            return r["ok"]["case"], r["ok"]["detail"]
+        return case, detail
     if kind in ("child-instance-rejected-by-parent", "accepted-after-refusal"):
         r = pool.run_one(MOD, "shrink_ovr", dict(case=case, detail=detail), timeout=600)
         if "ok" in r and r["ok"]:
@@ -1997,7 +2810,7 @@ def shrink_ovr(req):
             r = impl(c)
         except Exception:
             return None
-        ds = [d for d in r["oracle"] if d.get("kind") == detail["kind"]]
+        ds = [d for d in r["oracle"] if d.get("kind") == detail["kind"] and d.get("form") == detail.get("form")]
         return ds[0] if ds else None
 
     cur = dict(case)
@@ -2107,15 +2920,17 @@ def shrink_anc(req):
 def search(ctx):
     for s in range(1, 3):
         sub = core.Ctx(ID, "quick", ctx.seed + 7919 * s)
-        cases = gen_seq_cases(sub) + gen_enm_cases(sub) + gen_ovr_cases(sub) + gen_sub_cases(sub) + gen_pln_cases(sub)
+        cases = gen_seq_cases(sub) + gen_enm_cases(sub) + gen_ovr_cases(sub) + gen_fin_cases(sub) + gen_plg_cases(sub) + gen_sub_cases(sub) + gen_pln_cases(sub)
         res = pool.run(MOD, "impl", cases, timeout=300)
         ctx.search_log.append("seed %d: %d cases (subtype pairs with witness search, override families), oracle only" % (sub.seed, len(cases)))
         known = {k.get("signature") for k in core.load_findings() if k.get("kind") == "known"}
         for c, r in zip(cases, res):
             if "ok" in r:
                 for d in r["ok"]["oracle"]:
+                    if d.get("shrunk_case"):  # `fin` hits are minimised inside the worker
+                        c, d = d["shrunk_case"], {k: v for k, v in d.items() if k != "shrunk_case"}
                     c2, d2 = shrink(ctx, c, d)
-                    if signature(c2, d2) not in known:
+                    if signature(c2, d2) not in known and signature(c2, d2) not in FIN_PENDING:
                         return c2, d2
     return None
 
@@ -2130,7 +2945,7 @@ def replay(ctx, rep):
     for d in (r.get("ok") or {}).get("oracle", []):
         print("witness: loads=%s child=%s parent=%s fields=%s input=%s serialised=%s\n  %s" % (",".join(case.get("loads", [])) or "-", d.get("child"), d.get("parent"), d.get("fields"),
                                                                                          json.dumps(d.get("input")), json.dumps(d.get("serialised")), d.get("error")))
-    if case.get("kind") not in ("anc", "pln", "enm"):
+    if case.get("kind") not in ("anc", "pln", "enm", "fin", "plg"):
         C12.load_nf(ctx)
         print("model:", lean.run_driver("drv_cod", [lines(case)]))
     return 1 if ("ok" in r and r["ok"]["oracle"]) else 0
